@@ -573,11 +573,14 @@ func H_C16_EntValidate() {
 	spec := rt.And(rt.And(sdk.ValidateDenom(p.Denom) == nil, rt.And(p.MinAccepts >= 1, p.DecisionTimeLimit >= 1)),
 		rt.And(sh.wellFormed, rt.IntLe(rt.IntOfU64(p.MinAccepts), sdk.NewInt(int64(sh.n)))))
 	rt.Assert("C16.ent-validate-iff-spec", rt.Iff(p.Validate() == nil, spec))
+	rt.Assert("C16.ent-update-stateless-check-is-params-validity", rt.Iff((&enttypes.MsgUpdateParams{Authority: Authority(), Params: p}).ValidateBasic() == nil, spec))
 	// the stored list is what the consumers use: every authorised signer they see is one of the listed entries
 	if p.Validate() == nil {
 		rt.Reach("valid")
 		ee := NewEntEnvOn(NewEnv(AnyBlockTime("now"), false), 1)
-		_, err := entkeeper.NewMsgServerImpl(ee.K).UpdateParams(sdk.WrapSDKContext(ee.Ctx), &enttypes.MsgUpdateParams{Authority: Authority(), Params: p})
+		umsg := &enttypes.MsgUpdateParams{Authority: Authority(), Params: p}
+		rt.Assert("C16.ent-valid-update-passes-the-stateless-check", umsg.ValidateBasic() == nil)
+		_, err := entkeeper.NewMsgServerImpl(ee.K).UpdateParams(sdk.WrapSDKContext(ee.Ctx), umsg)
 		rt.Assert("C16.ent-valid-update-accepted", err == nil)
 		usable := len(ee.K.GetParamEntSignersAsAddressArray(ee.Ctx))
 		rt.Assert("C16.ent-usable-signers>=min-accepts", rt.IntLe(rt.IntOfU64(p.MinAccepts), sdk.NewInt(int64(usable))))
